@@ -157,9 +157,11 @@ func (f *FieldCopyFromGenerator) allocateEmbedded(g *j.Group) {
 	if !f.ParentIsOptionalEmbed {
 		return
 	}
-	g.If(j.Id("obj." + f.ParentIsOptionalEmbedFieldName).Op("==").Nil()).Block(
-		j.Id("obj." + f.ParentIsOptionalEmbedFieldName).Op("=").Id("&" + f.ParentIsOptionalEmbedFullType + "{}"),
-	)
+	for _, e := range f.OptionalEmbeds() {
+		g.If(j.Id("obj." + e.FieldName).Op("==").Nil()).Block(
+			j.Id("obj." + e.FieldName).Op("=").Id("&" + e.FullType + "{}"),
+		)
+	}
 }
 
 // genPrimitiveBody generates fragment which converts attr.Value v to go variable t
